@@ -83,12 +83,20 @@ def guarded_run(scratch, target, items, extra=None, nproc=16, hard_timeout=30.0,
                     _restart(start, sh, i)
                 _cleanup(base)
                 continue
+            # a busy machine must not look like a hang: an item is a hang when the worker has burnt `limit` seconds of CPU on
+            # it, or when nothing has happened for six times that long on the wall clock (a worker that waits forever)
             limit = startup_timeout if i < 0 else hard_timeout
-            if time.time() - t > limit:
+            cpu = _cpu_seconds(p.pid)
+            if r.get("mark_i") != i:
+                r["mark_i"], r["mark_cpu"] = i, cpu
+            burnt = cpu - r.get("mark_cpu", cpu)
+            waited = time.time() - t
+            if burnt > limit or waited > 6 * limit:
                 p.kill()
                 p.join()
                 running.remove(r)
-                _culprit(culprits, sh, i, "hang", f"no result after {limit:.0f} s of wall time")
+                _culprit(culprits, sh, i, "hang", (f"no result after {burnt:.0f} s of CPU time" if burnt > limit
+                                                   else f"no result after {waited:.0f} s of wall time (the worker is not running)"))
                 _restart(start, sh, i)
                 _cleanup(base)
         if stop_when is not None and not os.path.exists(stop_path) and stop_when(results, culprits):
@@ -96,6 +104,15 @@ def guarded_run(scratch, target, items, extra=None, nproc=16, hard_timeout=30.0,
     if os.path.exists(stop_path):
         os.unlink(stop_path)
     return results, culprits
+
+
+def _cpu_seconds(pid):
+    """user + system CPU time of the process so far (0 if it cannot be read)."""
+    try:
+        f = open(f"/proc/{pid}/stat").read().rsplit(")", 1)[1].split()
+        return (int(f[11]) + int(f[12])) / os.sysconf("SC_CLK_TCK")
+    except Exception:  # noqa: BLE001
+        return 0.0
 
 
 def _culprit(culprits, sh, i, kind, detail):
